@@ -112,6 +112,11 @@ def rand_query(rng, g):
     import random
 
     text = G.Renderer(G.style_with(rng.choice(['neutral', 'case', 'ws'])), random.Random(rng.random())).query(q)
+    if rng.random() < 0.2:
+        # 'and(' without the space: read as the keyword and a parenthesis, not as a function (in any letter case)
+        import re
+
+        text = re.sub(r'(?i)\b(and) \(', lambda m: m.group(1) + '(', text)
     return G.Expect([]).query(q), text
 
 
@@ -162,6 +167,20 @@ def observe(ctx, cssutils, ml, m, case, step, owner_obj):
             re_ml = cssutils.stylesheets.MediaList(mediaText=text)
             if norm(P.p_media(re_ml)) != exp or re_ml.mediaText != text:
                 problems.append(('mediaText reparses to an equal list', [norm(P.p_media(re_ml)), re_ml.mediaText], [exp, text]))
+        # with comments switched off, and in the minified preset, the text still says the same list
+        for how in ('no-comments', 'minified'):
+            try:
+                if how == 'no-comments':
+                    cssutils.ser.prefs.keepComments = False
+                else:
+                    cssutils.ser.prefs.useMinified()
+                t_alt = ml.mediaText
+            finally:
+                cssutils.ser.prefs.useDefaults()
+            if m.q:
+                alt = cssutils.stylesheets.MediaList(mediaText=t_alt)
+                if norm(P.p_media(alt)) != exp:
+                    problems.append(('mediaText under %s reparses to an equal list' % how, [norm(P.p_media(alt)), t_alt], [exp, text]))
         if owner_obj is not None and owner_obj.media is not ml:
             problems.append(('owner still holds the list', False, True))
     except Exception as e:
